@@ -50,6 +50,7 @@ type rworld struct {
 	sentIDs   map[int]bool // identifiers handed to some Send
 	seenIDs   map[int]bool // identifiers that arrived somewhere
 	corrupt   int          // arrivals with an identifier nobody sent, or a second arrival of one
+	busy      int // error handlers that are running and not (yet) parked in the blocking gate
 	hsend     int
 	ncalls    int
 	abandoned bool
@@ -202,6 +203,7 @@ func (w *rworld) onHandler(h int, si *network.ServerIdentity) {
 	}
 	w.ncalls++
 	ncalls := w.ncalls
+	w.busy++
 	block := w.armed == h
 	var rel chan struct{}
 	if block {
@@ -211,7 +213,12 @@ func (w *rworld) onHandler(h int, si *network.ServerIdentity) {
 	}
 	w.mu.Unlock()
 	w.markSent(1000000 + ncalls)
+	// the re-entrant part (it may dial the lost peer for a while) belongs to the handler call: the
+	// scenario is not at rest before it is over
 	reentrant(w.S, si, h, w.hsend, 1000000+ncalls, w.reent)
+	w.mu.Lock()
+	w.busy--
+	w.mu.Unlock()
 	if block {
 		w.blockedHit <- struct{}{}
 		<-rel
@@ -239,12 +246,16 @@ func (w *rworld) tabCount(p int) int {
 	return len(l)
 }
 
-const settleDeadline = 5 * time.Second
+const settleDeadline = 15 * time.Second
 
 // settle waits until S has noticed every death: a peer that is down (or any peer once S is
 // closed) has no registered connection left, except the one whose loop is blocked in a handler.
 func (w *rworld) settle() bool {
-	ok := true
+	ok := waitUntil(func() bool {
+		w.mu.Lock()
+		defer w.mu.Unlock()
+		return w.busy == 0
+	}, settleDeadline)
 	for p, pe := range w.peers {
 		if pe.up && !w.closed {
 			continue
@@ -259,7 +270,11 @@ func (w *rworld) settle() bool {
 				want = 1
 			}
 			armed := w.armed
+			busy := w.busy
 			w.mu.Unlock()
+			if busy > 0 {
+				return false
+			}
 			n := w.tabCount(p)
 			if armed >= 0 && n > want+pe.zombies {
 				// a handler is armed: the first loop to arrive will block and keep its entry
@@ -308,7 +323,7 @@ func (w *rworld) waitDelivered(p int, before int32, k int) {
 		return
 	}
 	cnt := pe.counts[len(pe.counts)-1]
-	waitUntil(func() bool { return atomic.LoadInt32(cnt) >= before+int32(k) }, 3*time.Second)
+	waitUntil(func() bool { return atomic.LoadInt32(cnt) >= before+int32(k) }, 10*time.Second)
 }
 
 func (w *rworld) curCount(p int) int32 {
@@ -357,8 +372,6 @@ func (w *rworld) exec(o *opj) (int, bool, bool) {
 			}
 			if g.WaitHit(200 * time.Microsecond) {
 				w.heldGate, w.heldDone, w.heldPeer, w.heldMsgs = g, done, o.P, len(o.M)
-				// the far end registers the connection while we are held
-				time.Sleep(5 * time.Millisecond)
 				return 0, false, false
 			}
 			if time.Now().After(deadline) {
@@ -406,7 +419,7 @@ func (w *rworld) exec(o *opj) (int, bool, bool) {
 		case <-time.After(12 * time.Second):
 			return 0, false, true
 		}
-		waitUntil(func() bool { return atomic.LoadInt32(&w.disp) > before }, 3*time.Second)
+		waitUntil(func() bool { return atomic.LoadInt32(&w.disp) > before }, 10*time.Second)
 		return 0, false, !w.settle()
 	case "crash":
 		pe := w.peers[o.P]
